@@ -207,7 +207,7 @@ type refState struct {
 	ok     bool
 }
 
-func fits16(v int) bool { return v >= -32768 && v <= 32767 }
+func fits16(v int) bool      { return v >= -32768 && v <= 32767 }
 func glyphFits(g Glyph) bool { return fits16(g.X) && fits16(g.Y) && fits16(g.Adv) }
 
 func addVR(v VRec, g Glyph) (Glyph, bool) {
